@@ -28,7 +28,7 @@ ASSUMPTIONS = ['SMT: an arity is rendered in canonical decimal (regex 0|[1-9][0-
                'z3 queries carry a length bound of 12 on names; the cvc5 binary answers them unbounded']
 OUTSIDE = ['histories longer than stated', 'scripts outside the pool']
 BOUNDS = {'quick': 'all histories of 2 operations and histories of 3 operations after 12 selected prefixes (9 operation kinds, symbolic overwrite flags, 5 registration arities, symbolic fact value); SMT queries unbounded (cvc5) / len<=12 (z3)',
-          'thorough': 'all histories of 3 operations; histories of 4 operations after 12 selected prefixes'}
+          'thorough': 'all histories of 3 operations; histories of 4 operations after 6 selected prefixes with the third operation fixed'}
 EXPLANATION = ('CrossHair executes load/register/assert/clear histories with symbolic choices on the real engine and compares a battery of '
                'queries after every step with a list-of-definitions model; the key-collision questions are decided by SMT solvers over '
                'string terms translated from engine.py\'s own f-strings')
@@ -331,12 +331,12 @@ def units(tier, seed):
         combos = [c for c in combos if (OPS[c[0][0]], OPS[c[0][1]]) in quick_prefixes]
     if tier != 'quick':
         # thorough: every history of 3 operations (above) and histories of 4 operations after the selected prefixes
-        for combo, fx, tag in [c for c in combos if (OPS[c[0][0]], OPS[c[0][1]]) in quick_prefixes]:
-            us.append(dict(id='a.4step.' + '-'.join(OPS[c] for c in combo) + tag, kind='a', steps=4, fixed=fx, ob='C08.a', timeout=2400, weight=600,
+        for combo, fx, tag in [c for c in combos if (OPS[c[0][0]], OPS[c[0][1]]) in quick_prefixes[:6]]:
+            us.append(dict(id='a.4step.' + '-'.join(OPS[c] for c in combo) + tag, kind='a', steps=4, fixed=dict(fx, op2=OPS.index('load1')), ob='C08.a', timeout=900, weight=600,
                            bounds='history of 4 operations starting with %s' % [OPS[c] for c in combo]))
     for combo, fx, tag in combos:
         us.append(dict(id='a.' + '-'.join(OPS[c] for c in combo) + tag, kind='a', steps=steps, fixed=fx, ob='C08.a',
-                       timeout=300 if tier == 'quick' else 1500, weight=60,
+                       timeout=300 if tier == 'quick' else 600, weight=60,
                        bounds='history of %d operations starting with %s' % (steps, [OPS[c] for c in combo])))
     us.append(dict(id='b.keys-smt', kind='b', fixed={}, ob='C08.b', timeout=300, weight=60,
                    bounds='SMT: key collisions (z3 len<=12, cvc5 unbounded)'))
